@@ -1,6 +1,7 @@
 (* C13 property theorems: statements only, each closed by [exact]. *)
 From Boltons Require Import Lib.Prelude Spec.C13_Spec Model.C13_Model
-     Check.C13_Check Proofs.C13_Bind Proofs.C13_Shape Proofs.C13_Sig Proofs.C13_Main Proofs.C13_Holds.
+     Model.C13_Text Gen.C13_Gen
+     Check.C13_Check Proofs.C13_Bind Proofs.C13_Shape Proofs.C13_Sig Proofs.C13_Main Proofs.C13_Holds Proofs.C13_Tie.
 
 (* wraps(f)(wrapper): the same signature (parameters, kinds, defaults on the same
    parameters, annotations, return annotation), __name__, __doc__, __module__,
@@ -136,6 +137,23 @@ Print Assumptions C13_model_agrees_with_itself.
 Theorem C13_signature_wellformed : forall f, wf_func f -> wf_params (sg_params (func_sig f)) = true.
 Proof. exact func_sig_wf. Qed.
 Print Assumptions C13_signature_wellformed.
+
+(* ---- obligations over data regenerated from /repo on every run (Gen/C13_Gen.v) ------------------ *)
+(* Model.C13_Text.scan is, extensionally on every string of length <= 5 over
+   { * , blank a tab }, what the real FunctionBuilder._KWONLY_MARKER.sub('', s) did *)
+Theorem C13_marker_tie : forallb (forallb marker_probe_ok) gen_marker_probes = true.
+Proof. exact marker_tie. Qed.
+Print Assumptions C13_marker_tie.
+Example C13_marker_tie_nonvacuous : (3000 <=? N.of_nat (length (concat gen_marker_probes)))%N = true.
+Proof. exact marker_probes_many. Qed.
+
+(* Model.C13_Text.sig_text / inv_text are, modulo blanks, the strings the real
+   get_sig_str(with_annotations=False) / get_invocation_str() returned on the grid of shapes *)
+Theorem C13_text_tie : forallb text_shape_ok gen_texts = true.
+Proof. exact text_tie. Qed.
+Print Assumptions C13_text_tie.
+Example C13_text_tie_nonvacuous : (36 <=? N.of_nat (length gen_texts))%N = true.
+Proof. exact text_shapes_many. Qed.
 
 (* ---- the hypotheses are inhabited by non-trivial states ------------------------------------------ *)
 Example C13_ex_wf_func : wf_func ex_f.
